@@ -623,6 +623,33 @@ func uploadDriver(a *Args) {
 		fs.close()
 		res.Case("gated:5xx-keep@body0,ack@end:mid", map[string]interface{}{"script": "gated stale reader replay", "round": round})
 	}
+	// scripts that every run contains whatever the sample: every attempt fails with a 5xx before the body was read
+	// to its end (the handler must be released all the same), and a 5xx after the replay window has moved on
+	for _, kind := range []string{"5xx-keep", "5xx-close"} {
+		for _, m := range []struct {
+			script []upStep
+			size   int
+		}{
+			{[]upStep{{kind, "early"}, {kind, "early"}, {kind, "early"}}, 5},
+			{[]upStep{{kind, "body0"}, {kind, "head"}, {kind, "early"}}, 2},
+			{[]upStep{{kind, "past"}, {"ack", "end"}}, 6},
+			{[]upStep{{kind, "limit"}, {"ack", "end"}}, 5},
+		} {
+			n++
+			h := sizes[m.size]
+			var shape []string
+			for _, st := range m.script {
+				shape = append(shape, st.Kind+"@"+st.Pos)
+			}
+			hx.Reset(fmt.Sprintf("upload-%d", n), fmt.Sprintf("upload:[%s]:%s", strings.Join(shape, ","), h.Name))
+			fs := newFaultServer(m.script, refs[h.Name])
+			ok, blocked, _ := runForwarder(fs.url(), h, fmt.Sprintf("req-%d", n), nil)
+			hx.Emit("CloseDone", "ok", ok, "blocked", blocked)
+			time.Sleep(5 * time.Millisecond)
+			fs.close()
+			res.Case(strings.Join(shape, ",")+":"+h.Name, map[string]interface{}{"script": shape, "response": h.Name, "pieces": h.Pieces, "close_ok": ok})
+		}
+	}
 	for _, sc := range cases.Scripts {
 		var script []upStep
 		var shape []string
